@@ -833,7 +833,8 @@ fn build_base(r: &str, u: &str, k: &str, t: &str, w: &str, fc: &str, ff: &str) -
     }
     items.extend(tvars.iter().map(|v| format!("${v}")));
   }
-  let template = format!("bar({})", items.join(", "));
+  // literal sigils that start no meta-variable (`$b`, `$ `) stand before every variable occurrence
+  let template = format!("$bar({})", items.join(", $ "));
   let fix = match ff {
     "string" => json!(template),
     "object" => json!({"template": template}),
